@@ -101,11 +101,84 @@ def job(args):
     return out
 
 
+# ---------------------------------------------------------------------------------------------------------
+# MAP columns (spec/MapNested.tla): two leaves with independent page cuts
+# ---------------------------------------------------------------------------------------------------------
+
+def map_expected(case):
+    return [None if r["null"] else {"k%d" % k: (None if v == 0 else conc(v)) for k, v in r["pairs"]} for r in case["rows"]]
+
+
+def map_spec(case, version):
+    def pages(stream, cuts, phys):
+        bounds = [0] + sorted(cuts) + [len(stream)]
+        out = []
+        for a, b in zip(bounds[:-1], bounds[1:]):
+            trs = stream[a:b]
+            if trs:
+                out.append({"version": version, "encoding": "PLAIN", "values": [phys(t["val"]) for t in trs if t["val"] >= 0],
+                            "def_levels": [t["def"] for t in trs], "rep_levels": [t["rep"] for t in trs]})
+        return out
+    name = case["colname"]
+    schema = [{"name": name, "repetition": "OPTIONAL" if case["mopt"] else "REQUIRED", "converted_type": "MAP",
+               "children": [{"name": "key_value", "repetition": "REPEATED", "converted_type": "MAP_KEY_VALUE",
+                             "children": [{"name": "key", "type": "BYTE_ARRAY", "converted_type": "UTF8", "repetition": "REQUIRED"},
+                                          {"name": "value", "type": "INT64", "converted_type": None,
+                                           "repetition": "OPTIONAL" if case["vopt"] else "REQUIRED"}]}]}]
+    return {"created_by": "parquet-mr version 1.12.0", "schema": schema,
+            "row_groups": [{"num_rows": len(case["rows"]), "columns": [
+                {"path": [name, "key_value", "key"], "codec": "UNCOMPRESSED", "dictionary": None, "statistics": None,
+                 "pages": pages(case["streamK"], case["cutsK"], lambda v: ("k%d" % v).encode())},
+                {"path": [name, "key_value", "value"], "codec": "UNCOMPRESSED", "dictionary": None, "statistics": None,
+                 "pages": pages(case["streamV"], case["cutsV"], conc)}]}]}
+
+
+def map_job(args):
+    jid, cases = args
+    fp = use_repo()
+    out = {"jid": jid, "viol": [], "evals": 0, "machinery": 0}
+    for ci, case in enumerate(cases):
+        want = map_expected(case)
+        inside = (any(case["streamK"][c]["rep"] != 0 for c in case["cutsK"] if c < len(case["streamK"]))
+                  or any(case["streamV"][c]["rep"] != 0 for c in case["cutsV"] if c < len(case["streamV"])))
+        for version in (1, 2):
+            if version == 2 and inside:
+                continue
+            try:
+                data = PW.build_file(map_spec(case, version))
+                fv = PR.read_file(data, strict=True)
+                if fv.problems:
+                    out["machinery"] += 1
+                    continue
+            except Exception:  # noqa
+                out["machinery"] += 1
+                continue
+            out["evals"] += 1
+            sig = {"column": "MAP", "version": version, "cut_inside_row": inside, "column_named_key": case["colname"] == "key",
+                   "model_predicts_misassembly": not case["model_ok"]}
+            try:
+                df = fp.ParquetFile(io.BytesIO(data)).to_pandas()
+                got = []
+                for v in df[case["colname"]]:
+                    if v is None or (isinstance(v, float) and v != v):
+                        got.append(None)
+                    else:
+                        got.append({(k.decode() if isinstance(k, bytes) else k): (None if (x is None or (isinstance(x, float) and x != x))
+                                                                                  else (int(x) if not isinstance(x, (str, bytes)) else x))
+                                    for k, x in dict(v).items()})
+            except BaseException as e:  # noqa
+                out["viol"].append((dict(sig, what="reading the nested column raised", exc=type(e).__name__), ci))
+                continue
+            if got != want:
+                out["viol"].append((dict(sig, what="rows assembled differently from standard record assembly"), ci))
+    return out
+
+
 def run(tier, seed):
     t = Timer()
     ev = Evidence(PID, tier, seed, "model_checking")
-    ev.assumptions = ["LIST<int64 / utf8> columns with optional/required list and element; MAP columns are not generated "
-                      "(see DESIGN section 6)", "files rendered by the independent encoder pqspec",
+    ev.assumptions = ["LIST<int64 / utf8> columns with optional/required list and element; MAP<utf8, int64> columns with optional/required map "
+                      "and value, key and value leaves cut into pages independently", "files rendered by the independent encoder pqspec",
                       "version-2 pages only with cuts on row boundaries (the format requires it)"]
     with scratch() as work:
         rc = _run(ev, work, tier == "thorough")
@@ -146,6 +219,48 @@ def _run(ev, work, thorough):
         sk += r["skipped_v2"]
         for sig, ci in r["viol"]:
             verd.add(sig, {"case": j[1][ci]}, cost=len(j[1][ci]["stream"]))
+    # ---- MAP columns ----
+    mcfg = os.path.join(work, "mapn.cfg")
+    mconst = {"MaxRows": 2, "MaxLen": 2, "MaxPages": 2, "MapOptionals": "<- BoolBoth", "ValOptionals": "<- BoolBoth",
+              "Keys": "<- K2", "Vals": "<- V2", "ColumnNames": "<- NamesBoth"}
+    # the mechanism as the code has it since the repair (KF-C15-fix): the LEAF's name decides which list holds the keys
+    T.write_cfg(mcfg, spec="Spec", constants=dict(mconst, KeyTestOnColumnName=False), invariants=["Export"], check_deadlock=False)
+    mres = T.run_tlc("MapNestedMC", mcfg, work, timeout=3000)
+    mcases = mres.printed_json()
+    if not mres.completed or not mcases:
+        raise T.TLCError("MapNested export failed:\n" + mres.out[-2000:])
+    ev.add_tlc("MapNested: every row structure x independent cuts of the key and value streams x column name", mres,
+               cases=len(mcases), mechanism_predicted_misassemblies=sum(1 for c in mcases if not c["model_ok"]))
+    # single pages: the contract holds; with the key test on the COLUMN's name (as found) a column called 'key' comes back swapped
+    T.write_cfg(mcfg, spec="Spec", constants=dict(mconst, KeyTestOnColumnName=False, MaxPages=1),
+                invariants=["Assembled"], check_deadlock=False)
+    m2 = T.run_tlc("MapNestedMC", mcfg, work, timeout=3000)
+    if not m2.ok:
+        raise T.TLCError("MapNested with single pages and the leaf-name key test must satisfy Assembled: %s" % m2.violated)
+    ev.add_tlc("MapNested, single pages, key decided by the leaf name: Assembled holds", m2)
+    T.write_cfg(mcfg, spec="Spec", constants=dict(mconst, KeyTestOnColumnName=True, MaxPages=1),
+                invariants=["Assembled"], check_deadlock=False)
+    m3 = T.run_tlc("MapNestedMC", mcfg, work, timeout=3000)
+    if m3.violated != "Assembled":
+        raise T.TLCError("MapNested with the key test on the column name must violate Assembled")
+    ev.add_tlc("MapNested mutant KeyTestOnColumnName (as found before the repair): Assembled violated", m3)
+    if not thorough:
+        mcases = [c for i, c in enumerate(mcases) if i % 7 == 0 or (not c["model_ok"] and i % 3 == 0)]
+    mjobs = [(i, mcases[i::64]) for i in range(64) if mcases[i::64]]
+    for j, r in zip(mjobs, pmap(map_job, mjobs, job_timeout=900)):
+        if isinstance(r, Crashed):
+            verd.add({"what": "interpreter crashed or hung assembling a nested column", "column": "MAP"}, {"first": j[1][0]})
+            continue
+        if not isinstance(r, dict):
+            raise RuntimeError("machinery failed: %s" % (r,))
+        ev.evaluations += r["evals"]
+        mach += r["machinery"]
+        for sig, ci in r["viol"]:
+            verd.add(sig, {"map_case": j[1][ci]}, cost=len(j[1][ci]["streamK"]))
+    for c in mcases:
+        if c["cutsK"] or c["cutsV"]:
+            ev.nontrivial.add(json.dumps(c, sort_keys=True))
+    ev.extra["map_cases"] = len(mcases)
     for c in cases:
         if c["cuts"]:
             ev.nontrivial.add(json.dumps(c, sort_keys=True))
